@@ -39,7 +39,7 @@ def arbiter_roles(rep, idx, rule):
             if sids:
                 cands.append((L, sids))
     if len(cands) != 1 or len(cands[0][1]) != 1:
-        rep.bad(rule, site, "data-path Switch", f"expected one loop over the initiators with one Case per index, found {len(cands)}")
+        rep.unk(rule, site, "data-path Switch", f"expected one loop over the initiators with one Case per index, found {len(cands)}")
         return None
     L, sids = cands[0]
     r.L = L
